@@ -35,6 +35,14 @@ CLAIMED["C05"] = dict(
     note=TRUST + " Multi-segment paths, constructors, struct literals and the typer's own scope handling are outside the model.",
 )
 
+CLAIMED["C10"] = dict(
+    technique="Coq proofs about the literal checker model (exact value, range rejection, print/parse round trip through the Go literal), Go's wrap-around arithmetic and %d rendering; differential correspondence of literal acceptance and emitted Go literal/operator/type text with the real compiler inside coqc",
+    text="11 pinned theorems (no axioms): an accepted literal denotes the written value and survives the TAST re-parse and Go printing (literal_end_to_end), out-of-range literals are rejected, intN arithmetic in the emitted Go wraps modulo 2^N / division truncates and fails on zero (model of Go), integer to_string is injective decimal. "
+         "Tied to the code by compiling one-literal programs (all of 0..299 for 8-bit types, boundaries for all widths, expression and pattern positions) and operator programs for all 8 types and comparing verdicts, Go literal text, operator symbols and Go type names with the model.",
+    design_ref="DESIGN.md §4 C10",
+    note=TRUST + " Floats: only the type mapping is checked; float_to_string's %d is a known finding. Go's arithmetic semantics is a model of the Go spec.",
+)
+
 NOT_YET = {}
 
 def main():
